@@ -6,7 +6,7 @@ import OpusProofs.SilkCoreParams
   (`celt_assert( start_idx > 0 )`, division by a zero gain).
 -/
 namespace Opus.SilkCoreProofs
-open Opus Opus.SilkParams Opus.SilkCore Opus.Gen
+open Opus Opus.SilkParams Opus.SilkCore Opus.Gen Opus.Frozen
 
 /-- What `silk_decode_core` needs from its caller. -/
 structure CoreHyp (s : DecState) (f : FrameIn) (ctrl : Ctrl) : Prop where
